@@ -44,6 +44,7 @@ type zzPolicy struct {
 	bigStrings     bool
 	maxDepth       int
 	slen           int // length of every string/octet-string leaf on this path
+	fullOnly       int // >0: no enumeration at the root: 1 = all optional members present, 2 = present/absent (two shapes); first alternative, one element
 }
 
 func hasOptional(tag string) bool {
@@ -154,7 +155,7 @@ func zzFill(v reflect.Value, path string, depth int, pol zzPolicy) {
 			return
 		}
 		n := 1
-		if depth == 0 {
+		if depth == 0 && pol.fullOnly == 0 {
 			n = vx.Choice(path+".len", 3)
 		}
 		s := reflect.MakeSlice(t, n, n)
@@ -172,7 +173,7 @@ func zzFill(v reflect.Value, path string, depth int, pol zzPolicy) {
 				return // CHOICE without alternatives (open type placeholder): not encodable
 			}
 			alt := 1
-			if depth == 0 {
+			if depth == 0 && pol.fullOnly == 0 {
 				alt = 1 + vx.Choice(path+".alt", t.NumField()-1)
 			}
 			v.Field(0).SetInt(int64(alt))
@@ -188,7 +189,15 @@ func zzFill(v reflect.Value, path string, depth int, pol zzPolicy) {
 			for i := range present {
 				present[i] = true
 			}
-			if depth == 0 {
+			if depth == 0 && pol.fullOnly > 0 {
+				all := true
+				if pol.fullOnly == 2 {
+					all = vx.Choice(path+".shape", 2) == 0
+				}
+				for _, i := range opt {
+					present[i] = all
+				}
+			} else if depth == 0 {
 				subs := zzSubsets(len(opt), pol)
 				s := subs[vx.Choice(path+".subset", len(subs))]
 				for j, i := range opt {
